@@ -50,7 +50,7 @@ def chunk_encode(body, layout, hexcase='lower', lead_zero=False, ext=b'', traile
 
 
 def build(kind, start, headers, framing, body=b'', layout=None, trailing=b'',
-          hexcase='lower', lead_zero=False, ext=b'', trailers=(), features=None):
+          hexcase='lower', lead_zero=False, ext=b'', trailers=(), features=None, framing_case='canonical'):
     """start: (method, target, version) or (version, code, reason|None).
     headers: list of (name, value, rawline) -- rawline may carry odd spacing/casing."""
     feats = dict(features or {})
@@ -65,11 +65,14 @@ def build(kind, start, headers, framing, body=b'', layout=None, trailing=b'',
         lines.append(version + b' ' + code + (b' ' + reason if reason is not None else b''))
     hs = list(headers)
     wire_body = b''
+    def fc(name):
+        return {'canonical': name, 'lower': name.lower(), 'upper': name.upper(),
+                'mixed': name.swapcase()}[framing_case]
     if framing == 'cl':
-        hs.append((b'Content-Length', str(len(body)).encode(), b'Content-Length: ' + str(len(body)).encode()))
+        hs.append((fc(b'Content-Length'), str(len(body)).encode(), fc(b'Content-Length') + b': ' + str(len(body)).encode()))
         wire_body = body
     elif framing == 'chunked':
-        hs.append((b'Transfer-Encoding', b'chunked', b'Transfer-Encoding: chunked'))
+        hs.append((fc(b'Transfer-Encoding'), b'chunked', fc(b'Transfer-Encoding') + b': chunked'))
         if layout is None:
             layout = (len(body),) if body else ()
         wire_body = chunk_encode(body, layout, hexcase, lead_zero, ext, trailers)
@@ -83,7 +86,7 @@ def build(kind, start, headers, framing, body=b'', layout=None, trailing=b'',
         'chunk_ext': bool(ext), 'chunk_trailers': bool(trailers),
         'hex_upper': hexcase != 'lower', 'lead_zero': lead_zero,
         'n_chunks': len(layout) if layout is not None else 0,
-        'trailing': bool(trailing),
+        'trailing': bool(trailing), 'framing_case': framing_case,
     })
     return Msg(kind=kind, method=method, target=target, version=version, code=code, reason=reason,
                headers=[(n, v) for (n, v, _r) in hs], framing=framing, body=body, layout=layout,
@@ -173,6 +176,16 @@ def corpus(tier):
                                              ext=b';x=1', features={'class': 'chunked_ext'}))
                             out.append(build(kind, start, hs, 'chunked', body, lay, trailing,
                                              trailers=(b'X-T: 1',), features={'class': 'chunked_trailers'}))
+    # framing header names in other casings (header names are case-insensitive)
+    for kind in ('request', 'response'):
+        start = starts(kind)[0]
+        for fcase in ('lower', 'upper', 'mixed'):
+            for body in (b'', b'abc'):
+                for trailing in (b'', b'G'):
+                    out.append(build(kind, start, hsets[1], 'cl', body, trailing=trailing, framing_case=fcase,
+                                     features={'class': 'cl' if body else 'cl_zero'}))
+                    out.append(build(kind, start, hsets[1], 'chunked', body, (len(body),) if body else (), trailing,
+                                     framing_case=fcase, features={'class': 'chunked'}))
     # de-duplicate by raw bytes + kind, keep first (simplest) occurrence
     seen = set()
     uniq = []
